@@ -26,6 +26,7 @@ type Clause struct {
 }
 
 type LoopSpec struct {
+	IterEnsures []*Clause // checked at the end of every iteration (each back edge), may name iteration-local variables
 	Invariants []*Clause
 	Decreases  *Clause
 	Unroll     int
@@ -288,6 +289,13 @@ func (C *Contracts) loadContractFile(path, pkgPath string) error {
 						return fail(err)
 					}
 					ls.Invariants = append(ls.Invariants, &Clause{Kind: "invariant", Label: lab, Expr: e, Src: src, File: path, Line: it.line})
+				case "iteration-ensures":
+					lab, src := splitLabel(tail)
+					e, err := parseExpr(src)
+					if err != nil {
+						return fail(err)
+					}
+					ls.IterEnsures = append(ls.IterEnsures, &Clause{Kind: "iteration-ensures", Label: lab, Expr: e, Src: src, File: path, Line: it.line})
 				case "decreases":
 					e, err := parseExpr(tail)
 					if err != nil {
